@@ -136,7 +136,9 @@ TEXT = {
   "design_ref": "§3 C04",
   "note": "Theorems are about the current chain of one node (T1-T4, N1); reorg/pool-replacement/restart stability (T5) is "
           "exercised by the stream only. Hash freshness is a hypothesis of reachability. Below "
-          "ReceiverMismatchEnforcementHeight T2/T3 are false of the code (known finding F8).",
+          "ReceiverMismatchEnforcementHeight T2/T3 are false of the code (known finding F8). Database read faults are not "
+          "injected: that a failing read of the received mark / inbox position is not answered like an absent key is a "
+          "regenerated AST fact (reviewed list of all reads of chain/account with their error handling).",
   "technique": "Lean 4 invariant proof (induction over reachable states) + differential replay of accepted blocks + at-most-once/FIFO monitors",
  },
  "C09": {
@@ -381,7 +383,8 @@ TEXT = {
   "design_ref": "§3 C14",
   "note": "Data-race freedom and reader atomicity are runtime properties (not theorems); readers are interposed at the "
           "listener boundaries of momentum insert/delete. The pool state machine is a "
-          "hand-written model; the two pure decision functions are tied by differential streams.",
+          "hand-written model; the two pure decision functions are tied by differential streams. Confinement of the "
+          "subscription table of rpc/api/subscribe to its worker goroutine is a regenerated call-graph fact (AST), not a race-detector run.",
   "technique": "Lean 4 proof (induction/omega) + regenerated constants + differential correspondence + node-level monitors",
  },
  "C11": {
